@@ -34,6 +34,10 @@ THEOREMS: Dict[str, str] = {
     "C13_rng_independent": "full",
     "C13_hypotheses_ex": "example",
     "C13_render_ex": "example",
+    "C13_brace_tokens_cover": "full",
+    "C13_brace_token_kinds": "full",
+    "C13_brace_scale": "full",
+    "C13_brace_ex": "example",
 }
 TRUSTED = [
     "Coq 8.16.1 kernel (coqc, vm_compute for correspondence only)",
